@@ -1,16 +1,18 @@
 #!/bin/bash
 # Builds the three flavours of uSCXML (asan+ubsan, tsan, plain) from /repo's working tree and the harness programs.
 cd "$(dirname "$0")/.."
-set -e
+pids=()
 for fl in asan tsan plain; do
-  bin/vbuild $fl &
+  bin/vbuild $fl & pids+=($!)
 done
-wait
+rc=0
+for p in "${pids[@]}"; do wait $p || rc=2; done
+[ $rc -eq 0 ] || { echo "setup: a flavour failed to build"; exit 2; }
 export PYTHONPATH=/verif
-python3 - <<'PY'
+python3 -c "
 import sys
 sys.path.insert(0, '/verif')
 from vf import harnesses
 harnesses.build_all()
-PY
+" || exit 2
 echo setup ok
